@@ -79,7 +79,12 @@ def mstepLine (x : MSt) (line : String) : MSt × List String :=
           let l := ((ms.map showM).mergeSort (fun p q => p ≤ q)).eraseDups
           s!"B {a.id} {e.id} " ++ (if l.isEmpty then "-" else ";".intercalate l)
         | .error _ => s!"B {a.id} {e.id} err"
-    (x, ls ++ ["."])
+    -- ... and the recorded targets of those boosts against the ships the specification boosts
+    let showIds (l : List Nat) : String := if l.isEmpty then "-" else ",".intercalate ((l.mergeSort (· ≤ ·)).map toString)
+    let ts := x.m.cfg.items.flatMap fun a =>
+      ((running u x.m.dyn a).filter (·.isBuff)).map fun e =>
+        s!"T {a.id} {e.id} {showIds (x.m.dyn.tgts a.id e.id)} {showIds ((boostTargets x.m.cfg a.fit).map (·.id))}"
+    (x, ls ++ ts ++ ["."])
   | _ =>
     -- universe / configuration lines go to the shared parser
     let r := step x.st line
